@@ -120,7 +120,8 @@ func (l lit) SQL() string {
 	return l.s
 }
 
-// typ is the SQL type class the engine gives the literal.
+// typ is the SQL type class the engine gives the literal ("int64" = some signed integer
+// type, "uint64" = some unsigned integer type).
 func (l lit) typ() string {
 	switch l.lk {
 	case lNull:
@@ -132,13 +133,31 @@ func (l lit) typ() string {
 	case lDec:
 		return "decimal"
 	}
+	// the engine gives an integer literal the smallest type that holds it, and prefers the
+	// unsigned type of a width over the next wider signed one: 0..127 tinyint, 128..255 tinyint
+	// unsigned, ..32767 smallint, ..65535 smallint unsigned, ..2^31-1 int, ..2^32-1 int unsigned,
+	// ..2^63-1 bigint, ..2^64-1 bigint unsigned; negative literals are signed
 	lo, hi := intRange(kBig)
 	_, uhi := intRange(kUBig)
-	switch n := l.r.Num(); {
-	case n.Cmp(lo) >= 0 && n.Cmp(hi) <= 0:
+	n := l.r.Num()
+	switch {
+	case n.Cmp(lo) < 0 || n.Cmp(uhi) > 0:
+	case n.Sign() < 0:
 		return "int64"
-	case n.Sign() > 0 && n.Cmp(uhi) <= 0:
+	case n.Cmp(hi) > 0:
 		return "uint64"
+	default:
+		for _, bits := range []uint{7, 15, 31} {
+			smax := new(big.Int).Lsh(big.NewInt(1), bits)   // 2^bits: first value beyond the signed type
+			umax := new(big.Int).Lsh(big.NewInt(1), bits+1) // first value beyond the unsigned type
+			if n.Cmp(smax) < 0 {
+				return "int64"
+			}
+			if n.Cmp(umax) < 0 {
+				return "uint64"
+			}
+		}
+		return "int64"
 	}
 	return "decimal" // integer literals beyond 64 bits are decimals
 }
